@@ -1,6 +1,8 @@
 //@ target: crates/erbium-core/src/dhcp/dhcppkt.rs
 //@ package: erbium-core
 //@ harness: ser_scalars_be complete props=C12
+//@ harness: fixed_field_4 bounded props=C12 timeout=300
+//@ harness: fixed_field_16 bounded props=C12 tier=thorough timeout=1500
 // The scalar impls of dhcppkt::Serialise (`for b in self.to_be_bytes().iter() { b.serialise(v) }`, `v.push(*self)`) are assumed in the
 // Verus unit dhcpser to append exactly the big-endian octets; checked here against the real code for all values.
 use super::*;
@@ -25,3 +27,28 @@ fn ser_scalars_be() {
     assert!(v[8] == (d >> 24) as u8 && v[9] == ((d >> 16) & 0xff) as u8 && v[10] == ((d >> 8) & 0xff) as u8 && v[11] == (d & 0xff) as u8);
     std::mem::forget(v);
 }
+
+// serialise_fixed as a black box (whatever its body looks like): the field is the value cut to the field width and zero padded, and
+// exactly `l` octets are appended.  BOUNDED: field width 4 (quick tier; the function is generic in the width) and 16 (chaddr; thorough
+// tier), values of every length up to the width + 2 with symbolic octets.  The Verus unit dhcpser proves the same for every width and length, but only for the body
+// it was written against; this check also judges a rewritten body.  (Width 16 takes about 7 minutes of CBMC time here; wider fields were not attempted.)
+fn check_fixed<const L: usize, const N: usize>() {
+    let src: [u8; N] = kani::any();
+    let n: usize = kani::any();
+    kani::assume(n <= N);
+    let p: u8 = kani::any();
+    let mut v = vec![p];
+    serialise_fixed(&src[..n], L, &mut v);
+    assert!(v.len() == 1 + L);
+    assert!(v[0] == p);
+    let i: usize = kani::any();
+    kani::assume(i < L);
+    if i < n { assert!(v[1 + i] == src[i]); } else { assert!(v[1 + i] == 0); }
+    std::mem::forget(v);
+}
+#[kani::proof]
+#[kani::unwind(20)]
+fn fixed_field_16() { check_fixed::<16, 18>(); }
+#[kani::proof]
+#[kani::unwind(8)]
+fn fixed_field_4() { check_fixed::<4, 6>(); }
